@@ -375,7 +375,7 @@ func main() {
 			}
 		}
 	}
-	nGrid := cfg.Count(320, len(grid))
+	nGrid := cfg.Count(192, len(grid))
 	nPkce := 2
 	if !cfg.Quick {
 		nPkce = 6
@@ -403,7 +403,7 @@ func main() {
 		runConfig(w, r, c, "grid", nPkce)
 	}
 	// ---- mixed endpoints (default / custom / absolute URL / nil)
-	for i := 0; i < cfg.Count(48, 400); i++ {
+	for i := 0; i < cfg.Count(32, 400); i++ {
 		c := mk(r.IntN(256))
 		for j := range c.Eps {
 			switch k := r.IntN(5); k {
